@@ -272,7 +272,7 @@ def generate(rng, tier, index):
                           "open-fault", "define-conflict", "define-repeat",
                           "include-twice", "include-via-define",
                           "import-in-fragment", "deep-chain",
-                          "odd-first-char"])
+                          "odd-first-char", "big-fragment"])
     plan = {"prop": ID, "schema_xml": xml, "top": uni["top"],
             "variant": variant, "fault": None,
             "entry": rng.choice(["url", "url", "path", "file"])}
@@ -346,6 +346,22 @@ def generate(rng, tier, index):
             plan["chain_depth"] = depth
         else:
             plan["variant"] = "plain"
+    elif variant == "big-fragment":
+        # a fragment of 9..40 KB whose bytes are mostly multi-byte
+        # characters (comment lines), at a random byte offset: however the
+        # transport hands the bytes over, the text is the same text
+        frs = sorted(u for u in res if u != uni["top"])
+        if frs:
+            u = rng.choice(frs)
+            res = {k: list(v) for k, v in res.items()}
+            ch = rng.choice(["\u00e9", "\u65e5", "\u00df\u672c", "\U0001f600"])
+            pad = ["#" + "x" * rng.randint(0, 5)]
+            for _ in range(rng.randint(60, 260)):
+                pad.append("# " + ch * rng.randint(40, 80))
+            at = rng.choice([0, 0, len(res[u])])
+            res[u][at:at] = pad
+        else:
+            plan["variant"] = "plain"
     elif variant == "odd-first-char":
         # the first line of a fragment starts with a character that is
         # invisible in an editor (byte order mark, zero-width space ...): it
@@ -409,6 +425,10 @@ def generate(rng, tier, index):
     plan["realfs"] = (rng.random() < 0.25 and not plan["fault"] and all(
         u.startswith("file:///sim/") and "%" not in u
         for u in list(store) + list(plan["decoys"])))
+    # real-file stratum with the top resource handed over as a text stream:
+    # the top resource need not exist as a file under the URL it is given
+    plan["top_in_memory"] = bool(plan["realfs"] and plan["entry"] == "file"
+                                 and rng.random() < 0.6)
     plan["symlink"] = None
     if plan["realfs"] and frags and rng.random() < 0.4:
         # prefer a fragment that itself includes something
@@ -457,6 +477,9 @@ def execute(plan):
                     if p.startswith(scratch) and p not in real:
                         real[p] = layout.DECOY_TEXT
                         decoys["file://" + p] = layout.DECOY_TEXT
+        if plan.get("top_in_memory"):
+            real.pop(_to_real(plan["top"], scratch)[len("file://"):], None)
+            out["probes"]["top-resource-only-in-memory"] = 1
         for p, t in real.items():
             os.makedirs(os.path.dirname(p), exist_ok=True)
             with open(p, "w", encoding="utf-8", newline="") as f:
@@ -578,8 +601,14 @@ def _execute(plan, out, store, decoys_in, top, real, report_plan=None):
             ld = ZConfig.loader.ConfigLoader(schema)
             for k in (1, 2):
                 w.begin_op("load-cut-same-loader-%d" % k)
-                ok_ = ops.config_outcome(lambda: ld.loadURL(top))
+                if plan.get("top_in_memory"):
+                    ok_ = ops.config_outcome(lambda: ld.loadFile(
+                        io.StringIO(cut_store.get(top, "")), top))
+                else:
+                    ok_ = ops.config_outcome(lambda: ld.loadURL(top))
                 opened_k = list(w.opened)
+                if plan.get("top_in_memory"):
+                    opened_k = [top] + opened_k
                 w.end_op("ok" if ok_["ok"] else ok_["cls"])
                 out["evaluations"] += 1
                 if not ops.same_outcome(ok_, oc) or opened_k != opened:
@@ -599,7 +628,7 @@ def _execute(plan, out, store, decoys_in, top, real, report_plan=None):
         if variant in ("plain", "invalid", "define-conflict",
                        "define-repeat", "include-twice",
                        "include-via-define", "import-in-fragment",
-                       "deep-chain", "odd-first-char"):
+                       "deep-chain", "odd-first-char", "big-fragment"):
             if oi["ok"] != oc["ok"]:
                 violation("outcome-differs",
                           "inlined text %s but cut layout %s"
